@@ -998,10 +998,18 @@ class SymStr(str):
     def rstrip(self, chars=None):
         return self._strip(chars, False, True)
 
+    def isdigit(self):
+        # within the analysed alphabet (printable ASCII + a few non-ASCII letters) the digits are 0-9
+        return SymBool(z3.InRe(self.e, z3.Plus(z3.Range('0', '9'))))
+
+    def isspace(self):
+        ws = z3.Union(*[z3.Re(z3.StringVal(c)) for c in ' \t\n\r\x0b\x0c'])
+        return SymBool(z3.InRe(self.e, z3.Plus(ws)))
+
     def _no(self, *a, **k):
         raise Inconclusive("unsupported str method on a symbolic string")
     rsplit = replace = join = encode = find = index = title = capitalize = _no
-    isdigit = isalpha = isalnum = isspace = partition = splitlines = zfill = casefold = _no
+    isalpha = isalnum = partition = splitlines = zfill = casefold = _no
     __getitem__ = __iter__ = __mul__ = __rmul__ = __lt__ = __le__ = __gt__ = __ge__ = _no
 
 
